@@ -969,6 +969,67 @@ pub fn c16(ctx: &Ctx) {
         }
         worst_spread.lock().unwrap().merge(&ws);
     });
+    // multi-row frames: a coloured first chroma row above neutral rows, chroma planes one or a few columns wide,
+    // U and V padded differently with non-neutral padding contents: the neutral samples must still decode to greys
+    {
+        let shapes: [(usize, usize, (u8, u8)); 5] = [(1, 4, (0, 0)), (2, 4, (1, 1)), (4, 8, (2, 2)), (6, 4, (1, 0)), (5, 6, (0, 1))];
+        let pads: [(usize, usize, usize); 3] = [(0, 17, 0), (0, 0, 17), (3, 1, 32)];
+        let wm = Mutex::new(Worst::<(usize, usize, usize, [f32; 3])>::new());
+        let nframes = AtomicU64::new(0);
+        ev::par_ranges("C16", cfgs.len() as u64, 1, |_w, a, _b| {
+            let ci = a as usize;
+            let (m, full, n) = cfgs[ci];
+            let mut rng = Rng::new(ctx.seed, 0x0C16_2000 + a);
+            let maxc = 1u64 << n;
+            let mid = 1u32 << (n - 1);
+            let mut lw = Worst::new();
+            for (si, (w, h, ss)) in shapes.into_iter().enumerate() {
+                let pad = pads[(si + ci) % 3];
+                let (cw, ch) = (w >> ss.0, h >> ss.1);
+                let mut g: Frame<u16> = Frame {
+                    planes: [Plane::new(w, h, 0, 0, pad.0, pad.0), Plane::new(cw, ch, ss.0 as usize, ss.1 as usize, pad.1, pad.1), Plane::new(cw, ch, ss.0 as usize, ss.1 as usize, pad.2, pad.2)],
+                };
+                for p in 0..3 {
+                    for v in g.planes[p].data.iter_mut() {
+                        *v = rng.below(maxc) as u16; // padding is anything but neutral
+                    }
+                    let (pw, ph) = if p == 0 { (w, h) } else { (cw, ch) };
+                    let stride = g.planes[p].cfg.stride;
+                    let d = g.planes[p].data_origin_mut();
+                    for y in 0..ph {
+                        for x in 0..pw {
+                            d[y * stride + x] = if p == 0 || y == 0 { rng.below(maxc) as u16 } else { mid as u16 };
+                        }
+                    }
+                }
+                let cfg = YuvConfig { subsampling_x: ss.0, subsampling_y: ss.1, ..cfg444(m, full, n) };
+                let Ok(yuv) = Yuv::new(g, cfg) else { continue };
+                let Ok(rgb) = Rgb::try_from(&yuv) else { continue };
+                nframes.fetch_add(1, Relaxed);
+                for y in (1usize << ss.1)..h {
+                    for x in 0..w {
+                        let q = rgb.data()[y * w + x];
+                        let sp = if q.iter().any(|v| v.is_nan()) { f64::NAN } else { (q[0].max(q[1]).max(q[2]) - q[0].min(q[1]).min(q[2])) as f64 };
+                        lw.upd(sp, (si, x, y, q));
+                    }
+                }
+            }
+            if !(lw.err <= 5e-7) {
+                if let Some((si, x, y, q)) = lw.at {
+                    let (w, h, ss) = shapes[si];
+                    ev::violation(
+                        format!("C16|grey-spread|multi-row|{m:?}|{}|n={n}", if full { "full" } else { "limited" }),
+                        format!("{w}x{h} frame, subsampling {ss:?}, coloured first chroma row: the neutral-chroma pixel ({x},{y}) decodes to {q:?} (spread {:.3e} > 5e-7)", lw.err),
+                        J::obj().set("kind", "grey-multirow").set("matrix", format!("{m:?}")).set("full", full).set("n", n).set("w", w).set("h", h).set("ss", [ss.0, ss.1]).set("x", x).set("y", y),
+                    );
+                }
+            }
+            wm.lock().unwrap().merge(&lw);
+        });
+        ev::observe("multi_row_grey_frames", nframes.load(Relaxed));
+        ev::observe("multi_row_grey_worst_spread", wm.lock().unwrap().err);
+        evals.fetch_add(nframes.load(Relaxed) * 12, Relaxed);
+    }
     // the matrices that are derived from the primaries ("for every matrix"): every (matrix, primaries) pair that decodes
     {
         let derived = [MC::Identity, MC::BT2020ConstantLuminance, MC::ChromaticityDerivedConstantLuminance, MC::ST2085, MC::ICtCp, MC::ChromaticityDerivedNonConstantLuminance, MC::Reserved];
